@@ -20,6 +20,7 @@ import OFV.Proofs.C07TermInfo
 import OFV.Proofs.C07BCH8
 import OFV.Proofs.C07BCHExp
 import OFV.Proofs.C07BCHUniv
+import OFV.Proofs.C07BCHMulti
 
 namespace OFV.C07
 open OFV OFV.Spec OFV.Spec.C07 OFV.Model OFV.Model.C07 OFV.Proofs.C07 OFV.Proofs.C07F
@@ -320,6 +321,63 @@ theorem bch_universal_upto_8 (k : Nat) (hk : k ≤ 8) {A : Type} [Ring A] [Algeb
     (Proofs.C07.expXexpY_split k hk) hn
   simp only [Proofs.C07U.expT_eq] at h
   simpa only [hnest] using h
+
+/-- `Σ_{j ≤ k} t^j / j!` -/
+noncomputable def expTrunc {A : Type} [Ring A] [Algebra ℚ A] (k : Nat) (t : A) : A :=
+  ∑ j ∈ Finset.range (k + 1), ((j.factorial : ℚ)⁻¹) • t ^ j
+
+/-- what `_bch_expand_two_terms(x, y, order=k)` denotes: `Σ coeff · nested commutator` over the table -/
+def bchTwo {A : Type} [Ring A] [Algebra ℚ A] (k : Nat) (x y : A) : A :=
+  ((generateNestedCommutator k).map fun tc => (tc.2 : ℚ) • nestedComm x y tc.1).sum
+
+/-- what `_bch_expand_multiple_terms` denotes along its bracketing tree -/
+def bchMany {A : Type} [Ring A] [Algebra ℚ A] (k : Nat) (xs : Nat → A) : BTree → A
+  | .leaf i => xs i
+  | .node l r => bchTwo k (bchMany k xs l) (bchMany k xs r)
+
+/-- **`bch_expand` with any number of operators** (`order = k ≤ 8`).  Let `A` be a ℚ-algebra with a
+multiplicative filtration `F 1 ⊇ F 2 ⊇ …`, `F i · F j ⊆ F (i + j)`, `F (k + 1) = 0` (e.g. strictly upper
+triangular matrices; polynomials in a small parameter modulo `ε^{k+1}`), and `x_0, …, x_{n-1} ∈ F 1`,
+`n ≥ 1`.  Then `z = bch_expand(x_0, …, x_{n-1}, order=k)` — the recursive halving
+`ops[: n // 2]`, `ops[n // 2 :]` with the two-operator table at every node — lies in `F 1` and satisfies
+`exp z = exp x_0 · exp x_1 ⋯ exp x_{n-1}` (in this order). -/
+theorem bch_expand_sound_upto_8 (k : Nat) (hk : k ≤ 8) {A : Type} [Ring A] [Algebra ℚ A]
+    (F : Nat → Submodule ℚ A) (anti : ∀ i, F (i + 1) ≤ F i)
+    (mul : ∀ i j a b, a ∈ F i → b ∈ F j → a * b ∈ F (i + j)) (top : ∀ a ∈ F (k + 1), a = 0)
+    (n : Nat) (hn : 1 ≤ n) (xs : Nat → A) (hx : ∀ i, i < n → xs i ∈ F 1) :
+    bchMany k xs (splitTree n 0 n) ∈ F 1 ∧
+    expTrunc k (bchMany k xs (splitTree n 0 n)) = ((List.range n).map fun i => expTrunc k (xs i)).prod := by
+  have hnest : ∀ (x y : A) w, nestedComm x y w = Proofs.C07U.nestedA x y w := by
+    intro x y w
+    induction w with
+    | nil => rfl
+    | cons g r ih =>
+      cases r with
+      | nil => rfl
+      | cons g' r' => simp only [nestedComm, Proofs.C07U.nestedA, Proofs.C07U.gen, ih]
+  have htwo : ∀ x y : A, bchTwo k x y = Proofs.C07U.bch2 k x y := by
+    intro x y; simp only [bchTwo, Proofs.C07U.bch2, hnest]
+  have hmany : ∀ t, bchMany k xs t = Proofs.C07U.bchTree k xs t := by
+    intro t
+    induction t with
+    | leaf i => rfl
+    | node l r ihl ihr => simp only [bchMany, Proofs.C07U.bchTree, htwo, ihl, ihr]
+  have hexp : ∀ t : A, expTrunc k t = Proofs.C07U.expT k t := by
+    intro t; rw [Proofs.C07U.expT_eq]; rfl
+  have h2 : ∀ x y : A, Proofs.C07U.Nil x y k →
+      Proofs.C07U.expT k (Proofs.C07U.bch2 k x y) = Proofs.C07U.expT k x * Proofs.C07U.expT k y := by
+    intro x y hnil
+    exact Proofs.C07U.check_universal x y k (generateNestedCommutator k) (bch_exact_upto_8_partial k hk)
+      (Proofs.C07.expXexpY_split k hk) hnil
+  have hl : leaves (splitTree n 0 n) = List.range n := by
+    rw [splitTree_leaves n 0 n hn (Nat.le_refl _), List.range_eq_range']
+  obtain ⟨hm, he⟩ := Proofs.C07U.bchTree_sound ⟨F, anti, mul, top⟩ h2 xs (splitTree n 0 n) (by
+    intro i hi
+    rw [hl] at hi
+    exact hx i (List.mem_range.mp hi))
+  refine ⟨by rw [hmany]; exact hm, ?_⟩
+  rw [hmany, hexp, he, hl]
+  simp only [hexp]
 
 /-- the check is not vacuous: doubling the third-order coefficients breaks it -/
 example : Spec.BCH.check 3 ((generateNestedCommutator 3).map fun tc =>
